@@ -9,6 +9,8 @@ import (
 	"sort"
 	"strconv"
 	"strings"
+	"sync"
+	"time"
 
 	"github.com/koestler/go-victron/veconst"
 	"github.com/koestler/go-victron/vedirect"
@@ -76,6 +78,9 @@ func readVia(api *vedirectapi.RegisterApi, it poolItem, o outcome) (out string, 
 	defer func() {
 		if r := recover(); r != nil {
 			out = "PANIC"
+			if _, ok := r.(budgetExceeded); ok {
+				out = "HANG"
+			}
 		}
 	}()
 	switch it.kind {
@@ -139,6 +144,11 @@ func suiteC06api(rng *Rng, thorough bool, s *Sink) {
 		{"flag8", &DevAnswer{8, []byte{1}}, nil, -1},
 		{"foreign", &DevAnswer{}, simGet(0x1234, 0, []byte{1, 2}), -1},
 		{"one-ok-then-silent", &DevAnswer{0, []byte{1, 0}}, nil, 1},
+		{"byte-FF", &DevAnswer{0, []byte{0xFF}}, nil, -1},
+		{"byte-FE", &DevAnswer{0, []byte{0xFE}}, nil, -1},
+		{"byte-0A", &DevAnswer{0, []byte{0x0A}}, nil, -1},
+		{"byte-80", &DevAnswer{0, []byte{0x80}}, nil, -1},
+		{"word-FFFF", &DevAnswer{0, []byte{0xFF, 0xFF}}, nil, -1},
 	}
 	for idx, it := range pool {
 		if !thorough && idx%3 != 0 && it.kind == 1 && !it.n.Signed() {
@@ -172,6 +182,9 @@ func suiteC06api(rng *Rng, thorough bool, s *Sink) {
 			s.Line(fmt.Sprintf("kind%d-%s", it.kind, v.name), op, res)
 			if out == "PANIC" {
 				s.Violate(op, res, fmt.Sprintf("reading register %s (%s device) panics", it.reg().Name(), v.name))
+			}
+			if out == "HANG" {
+				s.Violate(op, res, fmt.Sprintf("reading register %s (%s device) does not terminate", it.reg().Name(), v.name))
 			}
 			if frames > 8 {
 				s.Violate(op, res, fmt.Sprintf("reading register %s (%s device) wrote %d command frames: more than eight per register access", it.reg().Name(), v.name, frames))
@@ -295,6 +308,83 @@ func suiteC09(rng *Rng, thorough bool, s *Sink) {
 		}
 	}
 	s.Extra["distinct_register_definitions"] = len(seenDef)
+	// the list readers: poll a whole product twice through one RegisterApi, the device's content changing in between;
+	// every delivered value is what the device holds at the time of that poll (number, text, enum, field list alike)
+	keyOf := func(it poolItem) string {
+		k := fmt.Sprintf("%d/%s/%d", it.kind, it.reg().Name(), it.reg().Address())
+		switch it.kind {
+		case 1:
+			k += fmt.Sprintf("/%v/%d/%v", it.n.Signed(), it.n.Factor(), it.n.Offset())
+		case 3:
+			k += "/" + factoryName(it.e.Factory())
+		case 4:
+			k += "/" + factoryName(it.f.Factory())
+		}
+		return k
+	}
+	idxOf := map[string]int{}
+	for i, it := range pool {
+		if _, ok := idxOf[keyOf(it)]; !ok {
+			idxOf[keyOf(it)] = i
+		}
+	}
+	for _, id := range []uint16{0x203, 0xA381, 0xA056, 0xA053, 0xA231} {
+		rl, _ := veregister.GetRegisterListByProduct(veproduct.Product(id))
+		dev := NewDevPort(id)
+		api, err := connectApi(dev)
+		if err != nil {
+			continue
+		}
+		var items []poolItem
+		for i := range rl.NumberRegisters {
+			items = append(items, poolItem{kind: 1, n: &rl.NumberRegisters[i]})
+		}
+		for i := range rl.TextRegisters {
+			items = append(items, poolItem{kind: 2, t: &rl.TextRegisters[i]})
+		}
+		for i := range rl.EnumRegisters {
+			items = append(items, poolItem{kind: 3, e: &rl.EnumRegisters[i]})
+		}
+		for i := range rl.FieldListRegisters {
+			items = append(items, poolItem{kind: 4, f: &rl.FieldListRegisters[i]})
+		}
+		for poll := 1; poll <= 3; poll++ {
+			content := map[string]outcome{}
+			for _, it := range items {
+				o := okOutcome(answerFor(it.kind, it.reg(), it.e, rng))
+				content[it.reg().Name()] = o
+				dev.Regs[it.reg().Address()] = *o.ans
+			}
+			got := map[string]string{}
+			var rv vedirectapi.RegisterValues
+			if poll == 2 {
+				rv, err = api.ReadRegisterList(context.Background(), rl)
+			} else {
+				rv, err = api.ReadAllRegisters(context.Background())
+			}
+			if err != nil {
+				s.Violate(fmt.Sprintf("poll %d of product 0x%04X", poll, id), err.Error(), "a healthy device must be readable")
+				continue
+			}
+			for _, v := range rv.GetList() {
+				got[v.Name()] = "ok:" + valStr(v)
+			}
+			for _, it := range items {
+				name := it.reg().Name()
+				o := content[name]
+				idx, known := idxOf[keyOf(it)]
+				if !known {
+					continue
+				}
+				op := fmt.Sprintf("%s %d %s mut:poll-%d-of-product-%d-through-the-list-reader", opOfKind[it.kind], idx, o.tok, poll, id)
+				out := got[name]
+				s.Line(fmt.Sprintf("kind%d-list-poll", it.kind), op, out)
+				if v := oracleC09(it, it.reg(), o, out); v != "" {
+					s.Violate(op, out, v)
+				}
+			}
+		}
+	}
 }
 
 // oracleC09: the property stated directly, independent of the Lean model
@@ -494,10 +584,12 @@ func suiteC10(rng *Rng, thorough bool, s *Sink) {
 			failTok string
 			flag    byte // failTok err:other realised by a reserved response flag instead of silence
 			warm    bool // the measured run is the second one on this RegisterApi: a complete healthy run precedes it
+			expire  bool // the context ends by its deadline (Err() = DeadlineExceeded) instead of by cancel()
 		}
 		var scens []scen
 		scens = append(scens, scen{hs: "1111", cancel: -1, fail: -1})
-		for h := 0; h < 16; h++ { // every subset of nil handlers
+		scens = append(scens, scen{hs: "1111", cancel: -1, fail: -1, warm: true}) // a second complete run after the device's content changed
+		for h := 0; h < 16; h++ {                                                 // every subset of nil handlers
 			scens = append(scens, scen{hs: fmt.Sprintf("%04b", h), cancel: -1, fail: -1})
 		}
 		posStep := 1
@@ -505,7 +597,10 @@ func suiteC10(rng *Rng, thorough bool, s *Sink) {
 			posStep = 3
 		}
 		for k := 0; k <= total; k += posStep { // a cancellation at every position
-			scens = append(scens, scen{hs: "1111", cancel: k, how: []string{"callback", "write", "before"}[k%2], fail: -1, warm: k%5 == 4})
+			scens = append(scens, scen{hs: "1111", cancel: k, how: []string{"callback", "write", "before"}[k%2], fail: -1, warm: k%5 == 4, expire: k%3 == 1})
+			if k == 0 || k == total/2 {
+				scens = append(scens, scen{hs: "1111", cancel: k, how: "callback", fail: -1, expire: true})
+			}
 			if k == 0 {
 				scens[len(scens)-1].how = "before"
 			}
@@ -521,7 +616,7 @@ func suiteC10(rng *Rng, thorough bool, s *Sink) {
 		}
 		_ = all
 		for _, sc := range scens {
-			runStream(s, pl.spec, pl.rl, regs, sc.hs, sc.cancel, sc.how, sc.fail, sc.failTok, sc.flag, sc.warm)
+			runStream(s, pl.spec, pl.rl, regs, sc.hs, sc.cancel, sc.how, sc.fail, sc.failTok, sc.flag, sc.warm, sc.expire)
 		}
 	}
 }
@@ -550,7 +645,31 @@ func plannedOf(rl veregister.RegisterList, hs string) (addrs []uint16, names []s
 	return
 }
 
-func runStream(s *Sink, spec string, rl veregister.RegisterList, regs map[uint16]DevAnswer, hs string, cancel int, how string, fail int, failTok string, flag byte, warm bool) {
+// manualCtx: a context that ends when told to, the way a deadline ends it (Err() = context.DeadlineExceeded)
+type manualCtx struct {
+	done chan struct{}
+	mu   sync.Mutex
+	err  error
+}
+
+func (c *manualCtx) Deadline() (time.Time, bool) { return time.Time{}, true }
+func (c *manualCtx) Done() <-chan struct{}       { return c.done }
+func (c *manualCtx) Value(any) any               { return nil }
+func (c *manualCtx) Err() error {
+	c.mu.Lock()
+	defer c.mu.Unlock()
+	return c.err
+}
+func (c *manualCtx) expire() {
+	c.mu.Lock()
+	defer c.mu.Unlock()
+	if c.err == nil {
+		c.err = context.DeadlineExceeded
+		close(c.done)
+	}
+}
+
+func runStream(s *Sink, spec string, rl veregister.RegisterList, regs map[uint16]DevAnswer, hs string, cancel int, how string, fail int, failTok string, flag byte, warm bool, expire bool) {
 	pAddrs, pNames := plannedOf(rl, hs)
 	dev := NewDevPort(0xA231)
 	var mp []string
@@ -595,7 +714,12 @@ func runStream(s *Sink, spec string, rl veregister.RegisterList, regs map[uint16
 		failing := dev.Regs
 		dev.Regs = map[uint16]DevAnswer{}
 		for a, ans := range regs {
-			dev.Regs[a] = ans
+			// what the device holds during the first run differs from what it holds during the measured one
+			pl := append([]byte(nil), ans.Payload...)
+			if len(pl) > 0 {
+				pl[0] ^= 0x01
+			}
+			dev.Regs[a] = DevAnswer{ans.Flag, pl}
 		}
 		_, _ = api.ReadRegisterList(context.Background(), rl)
 		_ = api.StreamRegisterList(context.Background(), rl, vedirectapi.ValueHandler{Number: func(vedirectapi.NumberRegisterValue) {}, Text: func(vedirectapi.TextRegisterValue) {},
@@ -604,6 +728,10 @@ func runStream(s *Sink, spec string, rl veregister.RegisterList, regs map[uint16
 	}
 	ctx, cancelFn := context.WithCancel(context.Background())
 	defer cancelFn()
+	if expire {
+		mc := &manualCtx{done: make(chan struct{})}
+		ctx, cancelFn = mc, mc.expire
+	}
 	var events []string
 	collected := map[string]string{}
 	cbCount := 0
@@ -700,6 +828,9 @@ func runStream(s *Sink, spec string, rl veregister.RegisterList, regs map[uint16
 	}
 	if flag != 0 {
 		op += fmt.Sprintf(" mut:refused-with-flag-%02X", flag)
+	}
+	if expire {
+		op += " mut:context-ends-by-deadline"
 	}
 	out := strings.Join(events, ";") + " -> " + res + " M=" + strings.Join(ms, ";")
 	tag := "stream"
@@ -891,6 +1022,31 @@ func suiteC11(rng *Rng, thorough bool, s *Sink) {
 		{"wrong-type-id", func(d *DevPort) { d.BadId = simFrame(7, []byte{0x53, 0xA0}) }, "ok", errId},
 		{"nonhex-id", func(d *DevPort) { d.BadId = []byte(":153G060\n") }, "ok", errId},
 		{"truncated-id", func(d *DevPort) { d.BadId = []byte(":153A0") }, "ok", errId},
+	}
+	// a healthy device behind an unusual but legal port: Flush() reports an error (a pty, a TCP bridge); bytes received before
+	// the connect are still unread (a late answer to somebody else's ping, a Done frame with another id, text-protocol output)
+	for _, id := range []uint16{0xA053, 0x203, 0xA231, 0xA340, 0x1234, 0xA04B} {
+		stale := [][]byte{nil, simFrame(5, []byte{0x16, 0x41}), append(simFrame(5, []byte{0x16, 0x41}), simFrame(1, []byte{0x4B, 0xA0})...), []byte("\r\nV\t12800\r\nI\t-1500"), simFrame(1, []byte{0x03, 0x02})}
+		for si, st := range stale {
+			for _, ferr := range []error{nil, errors.New("flush is not supported by this port")} {
+				if st == nil && ferr == nil {
+					continue
+				}
+				dev := NewDevPort(id)
+				dev.Pending = st
+				dev.FlushErr = ferr
+				out, api, err := conn(dev)
+				op := fmt.Sprintf("CN ok ok:%d mut:port-stale%d-flusherr%v", id, si, ferr != nil)
+				s.Line("port-stale-or-flush-error", op, out)
+				supported := productClass(veproduct.Product(id)) != ""
+				if supported != (err == nil && api != nil) || (api != nil && uint16(api.Product) != id) {
+					s.Violate(op, out, fmt.Sprintf("device id 0x%04X answers ping and id query; %d stale bytes were pending before the connect, Flush() error=%v: connect gave %s", id, len(st), ferr, out))
+				}
+				if len(dev.Frames) < 2 || string(dev.Frames[0]) != ":154\n" || string(dev.Frames[1]) != ":451\n" {
+					s.Violate(op, out, fmt.Sprintf("connect did not ping and then ask the device id: frames %q", dev.Frames))
+				}
+			}
+		}
 	}
 	for _, sh := range shapes {
 		for _, id := range []uint16{0xA053, 0x203, 0xA231, 0xA340, 0x1234} {
